@@ -58,6 +58,47 @@ def ctsMachine (bs : Nat) (fs : (Bytes → Bytes) × (Bytes → Bytes)) (keyLen 
     | ["use", _] => ((), "ok")
     | _ => ((), bad)
 
+/-- the implementation layer for the current code: the *checked memory-level* mirror (`Impl/MemCts.lean`) — in place
+    on the buffer, or buffer-to-buffer into the output buffer's actual previous contents. -/
+def ctsMemOps (mode : String) : Option (MemCts.Op × MemCts.Op) :=
+  match mode with
+  | "cbccs1" => some (.cbc1e, .cbc1d)
+  | "cbccs2" => some (.cbc2e, .cbc2d)
+  | "cbccs3" => some (.cbc3e, .cbc3d)
+  | "ecbcs1" => some (.ecb1e, .ecb1d)
+  | "ecbcs2" => some (.ecb2e, .ecb2d)
+  | "ecbcs3" => some (.ecb3e, .ecb3d)
+  | _ => none
+
+def outcomeStr : MemCts.Outcome → String
+  | .ok o => "out " ++ toHex o
+  | .err o => "err " ++ toHex o
+  | .panic => "panic"
+
+def ctsMemMachine (C : Cipher) (w : Nat) (iv : Bytes) (ops : MemCts.Op × MemCts.Op) (keyLen ivLen : Nat) : Machine Unit where
+  init := ()
+  step := fun _ toks =>
+    match toks with
+    | ["enc", x] => match fromHex x with
+      | some b => ((), outcomeStr (MemCts.inplaceCall C.bs (ops.1.mem C w iv) b))
+      | none => ((), bad)
+    | ["dec", x] => match fromHex x with
+      | some b => ((), outcomeStr (MemCts.inplaceCall C.bs (ops.2.mem C w iv) b))
+      | none => ((), bad)
+    | ["encb", x, g] => match fromHex x, fromHex g with
+      | some b, some gb => ((), outcomeStr (MemCts.b2bCall C.bs (ops.1.mem C w iv) b gb))
+      | _, _ => ((), bad)
+    | ["decb", x, g] => match fromHex x, fromHex g with
+      | some b, some gb => ((), outcomeStr (MemCts.b2bCall C.bs (ops.2.mem C w iv) b gb))
+      | _, _ => ((), bad)
+    | ["newslice", kl, il] =>
+      match kl.toNat?, il.toNat? with
+      | some k, some i => ((), if k = keyLen ∧ i = ivLen then "ok" else "err")
+      | _, _ => ((), bad)
+    | ["clone"] => ((), "ok")
+    | ["use", _] => ((), "ok")
+    | _ => ((), bad)
+
 def toyMachine (key : Bytes) : Machine Unit where
   init := ()
   step := fun _ toks =>
